@@ -312,7 +312,7 @@ def run(tier, seed):
         k_other2 = fields(asyncssh.generate_private_key("ecdsa-sha2-nistp256"))
     except Exception as e:
         raise LB.RigError(f"key generation failed: {e!r}")
-    keys = [k_srv, k_other, k_other2]
+    keys = [k_srv, k_other, k_other2] + [unusable_key(v, k_srv, k_other) for v in UNUSABLE + ("mislabel-right",)]
 
     lines, checks = [], []   # model request lines; per line a closure(model reply) -> None
 
@@ -384,17 +384,23 @@ def run(tier, seed):
 
     def fake_case(lib, cfg, entries, content, fmt, auth, tagx=()):
         kh = write_kh(entries)
-        if lib == "paramiko":
-            tr = LF.run_paramiko(cfg, kh, host, k_srv[1], k_srv[0])
-        elif lib == "ssh2":
-            tr = LF.run_ssh2(cfg, kh, host, k_srv[1])
-        else:
-            tr, _ = LF.run_asyncssh(cfg, kh, host, k_srv[1], k_srv[0])
-        trusted = any(e["key"] == k_srv[1] for e in entries if names(e, host))
+        try:
+            if lib == "paramiko":
+                tr = LF.run_paramiko(cfg, kh, host, k_srv[1], k_srv[0])
+            elif lib == "ssh2":
+                tr = LF.run_ssh2(cfg, kh, host, k_srv[1])
+            else:
+                tr, _ = LF.run_asyncssh(cfg, kh, host, k_srv[1], k_srv[0])
+        except Exception as e:   # the fakes met behaviour they cannot play: shows up as disagreement + oracle complaint
+            tr = [f"harness-exception:{type(e).__name__}:{e}"[:120].replace(" ", "_").replace(",", ";")]
+        naming = [e for e in entries if names(e, host)]
+        trusted = any(e["key"] == k_srv[1] for e in naming)
+        unus = any(not importable(e["kt"], e["key"]) for e in naming)
         case = {"rig": "fakes", "transport": lib, "strict": cfg["strict"], "content": content, "format": fmt, "auth": auth,
                 "cfg": {k: cfg[k] for k in LF.BITS}, "known_hosts": kh_text(entries), "host": host, "trace": tr}
         ck.case(("fk", lib, env_bits(cfg), kh_text(entries)), nontrivial=cfg["strict"] and not trusted,
-                tags=(f"B:{lib}", f"B:strict={cfg['strict']}", f"B:content={content}", f"B:format={fmt}", f"B:auth={auth}", *tagx),
+                tags=(f"B:{lib}", f"B:strict={cfg['strict']}", f"B:content={content.split(':')[0]}", f"B:format={fmt}", f"B:auth={auth}",
+                      f"B:host-line-key-unusable={unus}", *tagx),
                 sample={k: case[k] for k in ("transport", "strict", "content", "format", "auth", "trace")})
         bad = trace_oracle(cfg["strict"], trusted, cfg["kexOK"], tr, key_usable=lib != "asyncssh" or not cfg["hasKey"] or cfg["keyLoads"])
         if bad:
@@ -402,205 +408,222 @@ def run(tier, seed):
         tbl, ents = model_entries(entries, host)
 
         def cmp(reply, tr=tr, case=case):
-            mt = reply.split(" ")[0]
-            got = ",".join(tr) or "."
+            mt = ",".join(norm_trace([x for x in reply.split(" ")[0].split(",") if x != "."])) or "."
+            got = ",".join(norm_trace(tr)) or "."
             if mt != got:
                 ck.disagree(f"HostKey model vs {case['transport']} open() over library fakes", case, f"impl={got} model={mt}")
             else:
                 ck.traces_validated += 1
-        ask(f"openkh {lib} {env_bits(cfg)} {hx(host)} {hx(k_srv[1])} {tbl} {ents}", cmp)
+        ask(f"openkh {lib} {env_bits(cfg)} {hx(host)} {hx(k_srv[1])} {tbl} {unimportable_field(entries)} {ents}", cmp)
 
     def cfg_of(strict, auth, key_loads=True, acc=(True, True), kex=True, user=True):
         return dict(strict=strict, keyLoads=key_loads, hasUser=user, kexOK=kex, accKey=acc[0], accPw=acc[1], **AUTHS[auth])
 
-    for c in corpus:
-        if c.get("kind") == "fakes":
-            for lib in libs:
-                fake_case(lib, cfg_of(c["strict"], c["auth"]), structured_entries(c["format"], c["content"], host, k_srv, k_other),
-                          c["content"], c["format"], c["auth"], ("B:corpus",))
-    for lib in libs:
-        for strict in (True, False):
-            for content in ("absent", "right", "other"):
-                for fmt in ("plain", "comma", "hashed"):
-                    es = structured_entries(fmt, content, host, k_srv, k_other if fmt != "comma" else k_other2)
-                    for auth in ("password", "key", "both"):
-                        for kl in ((True, False) if auth != "password" else (True,)):
-                            for acc in ((True, True), (False, True), (False, False)):
-                                fake_case(lib, cfg_of(strict, auth, kl, acc), es, content, fmt, auth)
-                        fake_case(lib, cfg_of(strict, auth, kex=False), es, content, fmt, auth, ("B:handshake-fails",))
-                    fake_case(lib, cfg_of(strict, "both", user=False, acc=(False, True)), es, content, fmt, "both", ("B:no-username",))
-        for _ in range(120 if tier == "quick" else 2500):
-            es = random_entries(ck.rng, keys)
-            auth = ck.rng.choice(list(AUTHS))
-            cfg = cfg_of(ck.rng.random() < 0.8, auth, ck.rng.random() < 0.8, ck.rng.choice([(True, True), (False, True), (False, False)]),
-                         ck.rng.random() < 0.9)
-            nm = [e["key"] == k_srv[1] for e in es if names(e, host)]
-            content = "absent" if not nm else "right" if all(nm) else "other" if not any(nm) else "mixed"
-            fake_case(lib, cfg, es, content, "random", auth, ("B:random-known_hosts",))
-    # the repaired asyncssh code hands the expected key to connect(): check WHAT it hands over (non-default port, user override)
-    pin_seen = None
-    try:
+    def rig_B():
+        for c in corpus:
+            if c.get("kind") == "fakes":
+                for lib in libs:
+                    fake_case(lib, cfg_of(c["strict"], c["auth"]), structured_entries(c["format"], c["content"], host, k_srv, k_other),
+                              c["content"], c["format"], c["auth"], ("B:corpus",))
+        for lib in libs:
+            for strict in (True, False):
+                for content in CONTENTS_ALL:
+                    full = tier == "thorough" or content in ("absent", "right", "other")
+                    for fmt in ("plain", "comma", "hashed"):
+                        es = structured_entries(fmt, content, host, k_srv, k_other if fmt != "comma" else k_other2)
+                        for auth in ("password", "key", "both"):
+                            for kl in ((True, False) if auth != "password" and full else (True,)):
+                                for acc in (((True, True), (False, True), (False, False)) if full else ((True, True),)):
+                                    fake_case(lib, cfg_of(strict, auth, kl, acc), es, content, fmt, auth)
+                            if full or auth == "password":
+                                fake_case(lib, cfg_of(strict, auth, kex=False), es, content, fmt, auth, ("B:handshake-fails",))
+                        if full:
+                            fake_case(lib, cfg_of(strict, "both", user=False, acc=(False, True)), es, content, fmt, "both", ("B:no-username",))
+            for _ in range(150 if tier == "quick" else 3000):
+                es = random_entries(ck.rng, keys, host if ck.rng.random() < 0.8 else None)
+                auth = ck.rng.choice(list(AUTHS))
+                cfg = cfg_of(ck.rng.random() < 0.8, auth, ck.rng.random() < 0.8, ck.rng.choice([(True, True), (False, True), (False, False)]),
+                             ck.rng.random() < 0.9)
+                nm = [e["key"] == k_srv[1] for e in es if names(e, host)]
+                content = "absent" if not nm else "right" if all(nm) else "other" if not any(nm) else "mixed"
+                fake_case(lib, cfg, es, content, "random", auth, ("B:random-known_hosts",))
+        # what strict mode hands to connect() (non-default port too); nothing when not strict
         es = structured_entries("plain", "right", host, k_srv, k_other)
         _, kw = LF.run_asyncssh(cfg_of(True, "password"), write_kh(es), host, k_srv[1], k_srv[0], port=2222)
-        pin_seen = kw.get("known_hosts") is not None
-        ck.extra["asyncssh_connect_known_hosts_when_strict"] = "expected key handed over" if pin_seen else "None"
+        ck.extra["asyncssh_connect_known_hosts_when_strict"] = "expected key handed over" if kw.get("known_hosts") is not None else "None"
         _, kw2 = LF.run_asyncssh(cfg_of(False, "password"), write_kh(es), host, k_srv[1], k_srv[0])
         if kw2.get("known_hosts") is not None:
             ck.notes.append("asyncssh: known_hosts handed to connect() even when not strict")
-    except Exception as e:
-        ck.proof_broken("libfakes10 asyncssh kwargs probe", repr(e))
+    guarded("B (library fakes)", rig_B)
 
     # ================= C: system transport
-    from scrapli.transport.plugins.system.transport import SystemTransport
-    MK, MC = SystemTransport.SSH_SYSTEM_KNOWN_HOSTS_FILE_MAGIC_STRING, SystemTransport.SSH_SYSTEM_CONFIG_MAGIC_STRING
-    sys_cases = [dict(c["args"]) for c in corpus if c.get("kind") == "sys"]
-    khs = ["", MK, "/home/u/.ssh/known_hosts", "/dev/null", "kh with blank"]
-    cfgs = ["", MC, "/etc/ssh/ssh_config"]
-    users = [None, [], ["-o", "StrictHostKeyChecking=no"], "-v", ["-o", "UserKnownHostsFile=/dev/null", "-o", "StrictHostKeyChecking=no"]]
-    for strict in (True, False):
-        for kh in khs:
-            for cf in cfgs:
-                for key in ("", "/k/id_rsa"):
-                    for un in ("", "bob"):
-                        for u in users:
-                            sys_cases.append(dict(host="r1", port=22, ts=15, tt=30, username=un, key=key, strict=strict, cfg=cf, kh=kh, user=u))
-    for _ in range(200 if tier == "quick" else 4000):
-        sys_cases.append(dict(host=ck.rng.choice(HOSTS), port=ck.rng.choice([22, 2222, 830, 65535]), ts=ck.rng.choice([0, 1, 15, 120]),
-                              tt=ck.rng.choice([0, 30, 600]), username=ck.rng.choice(["", "bob", "StrictHostKeyChecking=no"]),
-                              key=ck.rng.choice(["", "/k/id", "UserKnownHostsFile=/dev/null"]), strict=ck.rng.random() < 0.7,
-                              cfg=ck.rng.choice(cfgs), kh=ck.rng.choice(khs), user=ck.rng.choice(users)))
-    adv_sys = [dict(host="r1", port=22, ts=15, tt=30, username="bob", key="", strict=v, cfg="", kh="", user=None) for v in (None, 0, 1, "")]
-    try:
-        when = [l for l in open(VERIF / "lean/ScrapliModel/Gen/HostKeyGen.lean") if l.startswith("def sysNonStrictWhen")][0].split('"')[1]
-    except Exception:
-        when = "isFalse"
-    nG = 0
-    G_budget = 60 if tier == "quick" else 600
-    ck.extra["ssh_G_checked"] = 0
-    for i, a in enumerate(sys_cases + adv_sys):
-        indom = i < len(sys_cases)
+    def rig_C():
+        from scrapli.transport.plugins.system.transport import SystemTransport
+        MK, MC = SystemTransport.SSH_SYSTEM_KNOWN_HOSTS_FILE_MAGIC_STRING, SystemTransport.SSH_SYSTEM_CONFIG_MAGIC_STRING
+        sys_cases = [dict(c["args"]) for c in corpus if c.get("kind") == "sys"]
+        khs = ["", MK, "/home/u/.ssh/known_hosts", "/dev/null", "kh with blank"]
+        cfgs = ["", MC, "/etc/ssh/ssh_config"]
+        users = [None, [], ["-o", "StrictHostKeyChecking=no"], "-v", ["-o", "UserKnownHostsFile=/dev/null", "-o", "StrictHostKeyChecking=no"]]
+        for strict in (True, False):
+            for kh in khs:
+                for cf in cfgs:
+                    for key in ("", "/k/id_rsa"):
+                        for un in ("", "bob"):
+                            for u in users:
+                                sys_cases.append(dict(host="r1", port=22, ts=15, tt=30, username=un, key=key, strict=strict, cfg=cf, kh=kh, user=u))
+        for _ in range(200 if tier == "quick" else 4000):
+            sys_cases.append(dict(host=ck.rng.choice(HOSTS), port=ck.rng.choice([22, 2222, 830, 65535]), ts=ck.rng.choice([0, 1, 15, 120]),
+                                  tt=ck.rng.choice([0, 30, 600]), username=ck.rng.choice(["", "bob", "StrictHostKeyChecking=no"]),
+                                  key=ck.rng.choice(["", "/k/id", "UserKnownHostsFile=/dev/null"]), strict=ck.rng.random() < 0.7,
+                                  cfg=ck.rng.choice(cfgs), kh=ck.rng.choice(khs), user=ck.rng.choice(users)))
+        adv_sys = [dict(host="r1", port=22, ts=15, tt=30, username="bob", key="", strict=v, cfg="", kh="", user=None) for v in (None, 0, 1, "")]
         try:
-            argv = build_open_cmd(a)
-        except Exception as e:
-            if indom:
-                ck.violation({"rig": "system", "args": a}, f"_build_open_cmd raised {e!r}", matcher)
-            continue
-        case = {"rig": "system", "args": a, "argv": argv}
-        if indom:
-            ck.case(("sys", json.dumps(a, sort_keys=True, default=str)), nontrivial=a["strict"] is not False,
-                    tags=("C:system", f"C:strict={a['strict']}", "C:kh=" + ("empty" if a["kh"] == "" else "magic" if a["kh"] == MK else "devnull" if a["kh"] == "/dev/null" else "path"),
-                          "C:user-args=" + ("none" if not user_list(a) else "contradicting" if "StrictHostKeyChecking=no" in user_list(a) else "other")),
-                    sample={"args": a, "argv": argv})
-            for bad in argv_oracle(a, argv):
-                ck.violation(case, "system transport: " + bad, matcher)
-            if nG < G_budget and (i % 7 == 0 or "StrictHostKeyChecking=no" in user_list(a)):
-                g = ssh_G(argv)
-                if g is not None:
-                    nG += 1
-                    want = "false" if a["strict"] is False else "true"
-                    if g[0] not in (want, "yes" if want == "true" else "no"):
-                        ck.violation({**case, "ssh_G": g}, f"the real ssh binary reads stricthostkeychecking={g[0]} from this argv (strict={a['strict']})", matcher)
-                    if (a["strict"] is not False and g[1] == "/dev/null" and a["kh"] != "/dev/null"
-                            and "UserKnownHostsFile=/dev/null" not in user_list(a)):
-                        ck.violation({**case, "ssh_G": g}, "the real ssh binary uses /dev/null as known hosts file although strict", matcher)
-        off = (a["strict"] is False) if when == "isFalse" else (not a["strict"])
-        ul = ",".join(hx(x) for x in user_list(a)) or "."
-
-        def cmp(reply, argv=argv, case=case, indom=indom, a=a):
-            margv = [unhx(x) for x in reply.split(" ")[0].split(",")]
-            if margv != argv:
+            when = [l for l in open(VERIF / "lean/ScrapliModel/Gen/HostKeyGen.lean") if l.startswith("def sysNonStrictWhen")][0].split('"')[1]
+        except Exception:
+            when = "isFalse"
+        nG = 0
+        G_budget = 60 if tier == "quick" else 600
+        ck.extra["ssh_G_checked"] = 0
+        for i, a in enumerate(sys_cases + adv_sys):
+            indom = i < len(sys_cases)
+            try:
+                argv = build_open_cmd(a)
+            except Exception as e:
                 if indom:
-                    ck.disagree("HostKey model buildOpenCmd vs SystemTransport._build_open_cmd", case, f"impl={argv} model={margv}")
-                else:
-                    ck.extra["advisory_nonbool_strict_disagreements"] = ck.extra.get("advisory_nonbool_strict_disagreements", 0) + 1
-            elif indom:
-                ck.traces_validated += 1
-        ask(f"sys {hx(a['host'])} {a['port']} {int(a['ts'])} {int(a['tt'])} {hx(a['key'])} {hx(a['username'])} {int(off)} {hx(a['kh'])} {hx(a['cfg'])} {ul}", cmp)
-    ck.extra["ssh_G_checked"] = nG
-    ck.extra["advisory_nonbool_strict_cases"] = len(adv_sys)
+                    ck.violation({"rig": "system", "args": a}, f"_build_open_cmd raised {e!r}", matcher)
+                continue
+            case = {"rig": "system", "args": a, "argv": argv}
+            if indom:
+                ck.case(("sys", json.dumps(a, sort_keys=True, default=str)), nontrivial=a["strict"] is not False,
+                        tags=("C:system", f"C:strict={a['strict']}", "C:kh=" + ("empty" if a["kh"] == "" else "magic" if a["kh"] == MK else "devnull" if a["kh"] == "/dev/null" else "path"),
+                              "C:user-args=" + ("none" if not user_list(a) else "contradicting" if "StrictHostKeyChecking=no" in user_list(a) else "other")),
+                        sample={"args": a, "argv": argv})
+                for bad in argv_oracle(a, argv):
+                    ck.violation(case, "system transport: " + bad, matcher)
+                if nG < G_budget and (i % 7 == 0 or "StrictHostKeyChecking=no" in user_list(a)):
+                    g = ssh_G(argv)
+                    if g is not None:
+                        nG += 1
+                        want = "false" if a["strict"] is False else "true"
+                        if g[0] not in (want, "yes" if want == "true" else "no"):
+                            ck.violation({**case, "ssh_G": g}, f"the real ssh binary reads stricthostkeychecking={g[0]} from this argv (strict={a['strict']})", matcher)
+                        if (a["strict"] is not False and g[1] == "/dev/null" and a["kh"] != "/dev/null"
+                                and "UserKnownHostsFile=/dev/null" not in user_list(a)):
+                            ck.violation({**case, "ssh_G": g}, "the real ssh binary uses /dev/null as known hosts file although strict", matcher)
+            off = (a["strict"] is False) if when == "isFalse" else (not a["strict"])
+            ul = ",".join(hx(x) for x in user_list(a)) or "."
+
+            def cmp(reply, argv=argv, case=case, indom=indom, a=a):
+                margv = [unhx(x) for x in reply.split(" ")[0].split(",")]
+                if margv != argv:
+                    if indom:
+                        ck.disagree("HostKey model buildOpenCmd vs SystemTransport._build_open_cmd", case, f"impl={argv} model={margv}")
+                    else:
+                        ck.extra["advisory_nonbool_strict_disagreements"] = ck.extra.get("advisory_nonbool_strict_disagreements", 0) + 1
+                elif indom:
+                    ck.traces_validated += 1
+            ask(f"sys {hx(a['host'])} {a['port']} {int(a['ts'])} {int(a['tt'])} {hx(a['key'])} {hx(a['username'])} {int(off)} {hx(a['kh'])} {hx(a['cfg'])} {ul}", cmp)
+        ck.extra["ssh_G_checked"] = nG
+        ck.extra["advisory_nonbool_strict_cases"] = len(adv_sys)
+    guarded("C (system argv)", rig_C)
 
     # ================= E: defaults on real objects
-    default_cases(ck)
+    guarded("E (defaults)", lambda: default_cases(ck))
 
     # ================= D: real libraries against the recording loopback server
     rig = LB.Rig().start()
     try:
-        rig_cases = []
-        for c in corpus:
-            if c.get("kind") == "loopback":
-                rig_cases.append((c["transport"], c["strict"], c["content"], c["format"], c["auth"], "rsa"))
-        for tr in ("paramiko", "asyncssh"):
-            for content in ("absent", "other"):
-                for fmt in ("plain", "comma", "hashed"):
-                    for auth in ("password", "key", "both"):
-                        rig_cases.append((tr, True, content, fmt, auth, "rsa"))
-            rig_cases += [(tr, True, "other", "plain", "password", "ed25519"), (tr, True, "right", "plain", "password", "rsa"),
-                          (tr, True, "right", "hashed", "key", "rsa"), (tr, False, "other", "comma", "password", "rsa"),
-                          (tr, False, "absent", "plain", "both", "rsa")]
-            if tier == "thorough":
-                for strict in (True, False):
-                    for content in ("absent", "right", "other"):
-                        for fmt in ("plain", "comma", "hashed"):
-                            for auth in ("password", "key", "both"):
-                                rig_cases.append((tr, strict, content, fmt, auth, "rsa" if fmt != "comma" else "ed25519"))
-        seen_keys = set()
-        results = []
+        def rig_D():
+            rig_cases = []
+            for c in corpus:
+                if c.get("kind") == "loopback":
+                    rig_cases.append((c["transport"], c["strict"], c["content"], c["format"], c["auth"], "rsa"))
+            for tr in ("paramiko", "asyncssh"):
+                for content in CONTENTS_UNTRUSTED:
+                    simple = content in ("absent", "other")
+                    for fmt in ("plain", "comma", "hashed"):
+                        for auth in (("password", "key", "both") if simple or tier == "thorough" or (fmt == "plain" and content.startswith("unusable")) else ("password",)):
+                            rig_cases.append((tr, True, content, fmt, auth, "rsa"))
+                rig_cases += [(tr, True, "other", "plain", "password", "ed25519"), (tr, True, "unusable:mislabel", "hashed", "both", "ed25519"),
+                              (tr, True, "right", "plain", "password", "rsa"), (tr, True, "right", "hashed", "key", "rsa"),
+                              (tr, True, "unusable:mislabel-right", "plain", "password", "rsa"),
+                              (tr, False, "other", "comma", "password", "rsa"), (tr, False, "absent", "plain", "both", "rsa"),
+                              (tr, False, "unusable:garbage", "plain", "password", "rsa")]
+                if tier == "thorough":
+                    for strict in (True, False):
+                        for content in CONTENTS_ALL:
+                            for fmt in ("plain", "comma", "hashed"):
+                                for auth in (("password", "key", "both") if content in ("absent", "right", "other") else ("password",)):
+                                    rig_cases.append((tr, strict, content, fmt, auth, "rsa" if fmt != "comma" else "ed25519"))
+            seen_keys = set()
+            results = []
 
-        async def drive():
-            loop = asyncio.get_running_loop()
-            for rc in rig_cases:
-                if rc in seen_keys:
-                    continue
-                seen_keys.add(rc)
+            def host_entry(rc):
                 tr, strict, content, fmt, auth, ok = rc
-                kh = rig.known_hosts_file(fmt, content, other=ok)
-                for attempt in (0, 1):
-                    t0 = time.time()
-                    if tr == "paramiko":
-                        out, seen = await loop.run_in_executor(None, rig.run_paramiko, auth, strict, kh)
-                    else:
-                        out, seen = await rig.run_asyncssh(auth, strict, kh)
-                    expect_ok = (not strict) or content == "right"
-                    if expect_ok and out != "ok" and attempt == 0:
-                        continue   # one retry for accept cases (machine load)
-                    if expect_ok and out != "ok" and time.time() - t0 > 8:
-                        raise LB.RigError(f"loopback connection timed out under load: {rc} -> {out}")
-                    break
-                results.append((rc, out, seen))
-        asyncio.run(drive())
-        for rc, out, seen in results:
-            tr, strict, content, fmt, auth, ok = rc
-            case = {"rig": "loopback", "transport": tr, "strict": strict, "content": content, "format": fmt, "auth": auth,
-                    "other_key_type": ok, "outcome": out, "server_saw": [k for k, _ in seen]}
-            ck.case(("lb",) + rc, nontrivial=strict and content != "right",
-                    tags=(f"D:{tr}", f"D:strict={strict}", f"D:content={content}", f"D:format={fmt}", f"D:auth={auth}"), sample=case)
-            if strict and content != "right":
-                if seen:
-                    ck.violation(case, f"REAL {tr} against the recording server: strict, known_hosts content '{content}', yet the server was "
-                                       f"shown {[k for k, _ in seen]} before the client gave up ({out})", matcher)
-                elif out != "ScrapliAuthenticationFailed":
-                    ck.violation(case, f"REAL {tr}: strict, content '{content}': ended in {out}, not ScrapliAuthenticationFailed", matcher)
-            cfg = dict(strict=strict, found=content != "absent", equal=content == "right", keyLoads=True, hasUser=True, kexOK=True,
-                       accKey=True, accPw=True, **AUTHS[auth])
-            b = "".join("1" if cfg[k] else "0" for k in ("strict", "found", "equal", "hasKey", "keyLoads", "hasPw", "hasUser", "kexOK", "accKey", "accPw"))
+                es = structured_entries(fmt, content, LB.HOST, rig.right, rig.other if ok == "rsa" else rig.other_ed)
+                nm = [e for e in es if names(e, LB.HOST)]
+                return es, (nm[-1] if nm else None)
 
-            def cmp(reply, case=case, out=out, seen=seen):
-                evs = reply.split(" ")[0].split(",")
-                m_out = "ok" if evs[-1] == "openSession" else {"raise:AuthenticationFailed": "ScrapliAuthenticationFailed",
-                                                               "raise:ConnectionNotOpened": "ScrapliConnectionNotOpened"}.get(evs[-1], "library")
-                m_off = any(e in OFFERS for e in evs)
-                r_out = out if out in ("ok", "ScrapliAuthenticationFailed", "ScrapliConnectionNotOpened") else "library"
-                if (m_out, m_off) != (r_out, bool(seen)):
-                    ck.disagree(f"HostKey model vs REAL {case['transport']} against the loopback server", case,
-                                f"impl=(outcome {out}, server saw auth {bool(seen)}) model=({m_out}, {m_off}) trace={reply}")
-                else:
-                    ck.traces_validated += 1
-            ask(f"open {tr} {b}", cmp)
-        # ---- known finding F19: replay the stored witness on the real code
+            async def drive():
+                loop = asyncio.get_running_loop()
+                for rc in rig_cases:
+                    if rc in seen_keys:
+                        continue
+                    seen_keys.add(rc)
+                    tr, strict, content, fmt, auth, ok = rc
+                    es, he = host_entry(rc)
+                    trusted = he is not None and he["key"] == rig.right[1]
+                    kh = rig.write(kh_text(es))
+                    for attempt in (0, 1):
+                        t0 = time.time()
+                        if tr == "paramiko":
+                            out, seen = await loop.run_in_executor(None, rig.run_paramiko, auth, strict, kh)
+                        else:
+                            out, seen = await rig.run_asyncssh(auth, strict, kh)
+                        expect_ok = (not strict) or content == "right"
+                        if expect_ok and out != "ok" and attempt == 0:
+                            continue   # one retry for accept cases (machine load)
+                        if expect_ok and out != "ok" and time.time() - t0 > 8:
+                            raise LB.RigError(f"loopback connection timed out under load: {rc} -> {out}")
+                        break
+                    results.append((rc, out, seen, kh_text(es), he, trusted))
+            asyncio.run(drive())
+            for rc, out, seen, text, he, trusted in results:
+                tr, strict, content, fmt, auth, ok = rc
+                case = {"rig": "loopback", "transport": tr, "strict": strict, "content": content, "format": fmt, "auth": auth,
+                        "other_key_type": ok, "outcome": out, "server_saw": [k for k, _ in seen], "known_hosts": text, "host": LB.HOST}
+                ck.case(("lb",) + rc, nontrivial=strict and not trusted,
+                        tags=(f"D:{tr}", f"D:strict={strict}", f"D:content={content.split(':')[0]}", f"D:format={fmt}", f"D:auth={auth}"),
+                        sample={k: v for k, v in case.items() if k != "known_hosts"})
+                if strict and not trusted:
+                    if seen:
+                        ck.violation(case, f"REAL {tr} against the recording server: strict, known_hosts content '{content}', yet the server was "
+                                           f"shown {[k for k, _ in seen]} before the client gave up ({out})", matcher)
+                    elif out != "ScrapliAuthenticationFailed":
+                        ck.violation(case, f"REAL {tr}: strict, content '{content}': ended in {out}, not ScrapliAuthenticationFailed", matcher)
+                cfg = dict(strict=strict, found=he is not None, equal=trusted, importable=he is not None and importable(he["kt"], he["key"]),
+                           keyLoads=True, hasUser=True, kexOK=True, accKey=True, accPw=True, **AUTHS[auth])
+                b = "".join("1" if cfg[k] else "0" for k in ("strict", "found", "equal", "importable", "hasKey", "keyLoads", "hasPw", "hasUser",
+                                                               "kexOK", "accKey", "accPw"))
+
+                def cmp(reply, case=case, out=out, seen=seen):
+                    evs = reply.split(" ")[0].split(",")
+                    m_out = "ok" if evs[-1] == "openSession" else "ScrapliAuthenticationFailed" if evs[-1] == "raise:AuthenticationFailed" else "other"
+                    m_off = any(e in OFFERS for e in evs)
+                    r_out = out if out in ("ok", "ScrapliAuthenticationFailed") else "other"
+                    if (m_out, m_off) != (r_out, bool(seen)):
+                        ck.disagree(f"HostKey model vs REAL {case['transport']} against the loopback server", case,
+                                    f"impl=(outcome {out}, server saw auth {bool(seen)}) model=({m_out}, {m_off}) trace={reply}")
+                    else:
+                        ck.traces_validated += 1
+                ask(f"open {tr} {b}", cmp)
+        guarded("D (loopback server)", rig_D)
+        # ---- an OPEN known finding: replay its stored witness on the real code
         f19 = next((f for f in ck.findings if f["id"] == FID and f.get("status") == "open"), None)
         if f19:
             w = f19["witness"]
-            out, seen = asyncio.run(rig.run_asyncssh(w["auth"], w["strict"], rig.known_hosts_file(w["format"], w["content"])))
+            es = structured_entries(w["format"], w["content"], LB.HOST, rig.right, rig.other)
+            out, seen = asyncio.run(rig.run_asyncssh(w["auth"], w["strict"], rig.write(kh_text(es))))
             if seen:
                 ck.known_finding(FID, f19["what"])
             ck.extra["F19_witness_server_saw"] = [k for k, _ in seen]
@@ -694,40 +717,53 @@ def replay(path):
     if rigk == "loopback":
         rig = LB.Rig().start()
         try:
-            kh = rig.known_hosts_file(v["format"], v["content"], other=v.get("other_key_type", "rsa"))
+            es = structured_entries(v["format"], v["content"], LB.HOST, rig.right, rig.other if v.get("other_key_type", "rsa") == "rsa" else rig.other_ed)
+            kh = rig.write(kh_text(es))
+            trusted = any(e["key"] == rig.right[1] for e in es if names(e, LB.HOST))
             if v["transport"] == "paramiko":
                 out, seen = rig.run_paramiko(v["auth"], v["strict"], kh)
             else:
                 out, seen = asyncio.run(rig.run_asyncssh(v["auth"], v["strict"], kh))
         finally:
             rig.stop()
-        print("outcome", out, "server saw", seen)
-        bad = v["strict"] and v["content"] != "right" and (bool(seen) or out != "ScrapliAuthenticationFailed")
+        print("known_hosts:\n" + kh_text(es) + "outcome", out, "; server saw", seen)
+        bad = v["strict"] and not trusted and (bool(seen) or out != "ScrapliAuthenticationFailed")
         return 1 if bad else 0
     if rigk == "fakes":
         kt, b64 = asyncssh.generate_private_key("ssh-ed25519").export_public_key().decode().split()[:2]
-        ot = asyncssh.generate_private_key("ssh-ed25519").export_public_key().decode().split()[:2]
-        es = structured_entries(v["format"] if v["format"] != "random" else "plain", v["content"], "r1", (kt, b64), tuple(ot))
+        ot = tuple(asyncssh.generate_private_key("ssh-ed25519").export_public_key().decode().split()[:2])
+        if v["format"] == "random":
+            print("random known_hosts content of the failing run (keys were generated at run time):\n" + v.get("known_hosts", ""))
+            fmt, content = "plain", {"mixed": "right"}.get(v["content"], v["content"])
+        else:
+            fmt, content = v["format"], v["content"]
+        es = structured_entries(fmt, content, "r1", (kt, b64), ot)
         p = tempfile.mktemp(prefix="c10-kh")
         open(p, "w").write(kh_text(es))
         cfg = dict(v["cfg"])
         if v["transport"] == "paramiko":
-            tr = LF.run_paramiko(cfg, p, "r1", b64)
+            tr = LF.run_paramiko(cfg, p, "r1", b64, kt)
         elif v["transport"] == "ssh2":
             LF.ssh2_available()
             tr = LF.run_ssh2(cfg, p, "r1", b64)
         else:
             tr, _ = LF.run_asyncssh(cfg, p, "r1", b64, kt)
         os.unlink(p)
-        bad = trace_oracle(cfg["strict"], v["content"] == "right", cfg["kexOK"], tr,
+        trusted = any(e["key"] == b64 for e in es if names(e, "r1"))
+        bad = trace_oracle(cfg["strict"], trusted, cfg["kexOK"], tr,
                            key_usable=v["transport"] != "asyncssh" or not cfg["hasKey"] or cfg["keyLoads"])
-        print("trace", tr, "\ncomplaint", bad)
+        print("known_hosts:\n" + kh_text(es) + "trace", tr, "\ncomplaint", bad)
         return 1 if bad else 0
     if rigk == "lookup":
         from scrapli.ssh_config import SSHKnownHosts
         p = tempfile.mktemp(prefix="c10-kh")
         open(p, "w").write(v["known_hosts"])
-        real = SSHKnownHosts(p).lookup(v["host"])
+        try:
+            real = SSHKnownHosts(p).lookup(v["host"])
+        except Exception as e:
+            print("lookup raised", repr(e))
+            os.unlink(p)
+            return 1
         os.unlink(p)
         naming = []
         for line in v["known_hosts"].splitlines():
